@@ -631,6 +631,9 @@ func (vc *VC) loopHead(b *ssa.BasicBlock, n int, h *Heap, reach string) *Heap {
 		if err != nil {
 			panic(evalError{fmt.Sprintf("loop %d invariant %s: %v", n, vc.contract.clauseName(cl, i), err)})
 		}
+		if os.Getenv("GOVC_TRACEINV") != "" {
+			fmt.Fprintf(os.Stderr, "%s loop %d head assumes %s: %s\n", vc.key, n, vc.contract.clauseName(cl, i), s)
+		}
 		vc.assume(reach, s)
 	}
 	vc.cover(fmt.Sprintf("loop%d.head", n), reach)
@@ -789,6 +792,16 @@ func (vc *VC) resolveLocal(name string, at *ssa.BasicBlock, h *Heap, subst map[*
 						return t, true
 					}
 				}
+				// a variable that lives in a cell (its address is taken, or a closure captures it): the
+				// value a reference saw once is not its value now - read the cell in the given state
+				if al := vc.cellOf(in.Object()); al != nil {
+					if a, ok := vc.addrs[al]; ok {
+						return vc.load(h, a), true
+					}
+					if t, ok := vc.vals[al]; ok {
+						return vc.loadPtr(h, t, "true", false), true
+					}
+				}
 				if _, ok := vc.vals[in.X]; !ok {
 					if _, isConst := in.X.(*ssa.Const); !isConst {
 						continue
@@ -825,6 +838,21 @@ func (vc *VC) resolveLocal(name string, at *ssa.BasicBlock, h *Heap, subst map[*
 		}
 	}
 	return Term{}, false
+}
+
+// cellOf: the allocation that holds source variable obj, if it has one
+func (vc *VC) cellOf(obj types.Object) *ssa.Alloc {
+	if obj == nil {
+		return nil
+	}
+	for _, b := range vc.fn.Blocks {
+		for _, in := range b.Instrs {
+			if al, ok := in.(*ssa.Alloc); ok && al.Comment == obj.Name() && al.Pos() == obj.Pos() {
+				return al
+			}
+		}
+	}
+	return nil
 }
 
 // ---- values -------------------------------------------------------------
